@@ -59,10 +59,13 @@ def main():
     types3 = ["TETRA4", "HEXA8"] if args.tier == "quick" else ["TETRA4", "HEXA8", "PRISM6", "TETRA10"]
 
     # ---------------- Elastic (2D / 3D): every advertised name ----------------
-    for et in types2 + types3:
-        dim = M.dim_of(et)
-        mesh = M.mesh_of(et)
-        mat = Models.Elastic.Isotropic(dim, E=8.0, v=0.25, planeStress=True, thickness=1.0) if dim == 2 else Models.Elastic.Isotropic(3, E=8.0, v=0.25)
+    mixed_ = {"TRI3+QUAD4": (2, lambda: M.mesh_mixed_2d()), "PRISM6+HEXA8": (3, lambda: M.mesh_mixed_3d())}
+    for et in types2 + types3 + list(mixed_):
+        dim = mixed_[et][0] if et in mixed_ else M.dim_of(et)
+        mesh = mixed_[et][1]() if et in mixed_ else M.mesh_of(et)
+        # the thickness belongs to 2D models; a 3D model may carry one too (constructor argument) and then nothing may depend on it
+        th = [0.5, 1.5, 2.0, 1.0][((types2 + types3 + list(mixed_)).index(et) + args.seed) % (4 if dim == 2 else 3)]
+        mat = Models.Elastic.Isotropic(dim, E=8.0, v=0.25, planeStress=True, thickness=th) if dim == 2 else Models.Elastic.Isotropic(3, E=8.0, v=0.25, thickness=th)
         simu = Simulations.Elastic(mesh, mat)
         simu.Solver_Set_Hyperbolic_Algorithm(0.1)
         Nn, n = mesh.Nn, mesh.Nn * dim
@@ -70,7 +73,7 @@ def main():
         v = np.array([dy(rng) for _ in range(n)])
         a = np.array([dy(rng) for _ in range(n)])
         simu._Set_solutions(simu.problemType, u.copy(), v.copy(), a.copy())
-        ident = dict(sim="Elastic", elemType=et, Nn=int(Nn), Ne=int(mesh.Ne))
+        ident = dict(sim="Elastic", elemType=et, Nn=int(Nn), Ne=int(mesh.Ne), thickness=th)
         res.count("elastic:" + et)
         names = simu.Results_Available()
         for name in names:
@@ -268,7 +271,7 @@ def main():
                     if np.abs(got - arr.reshape(-1, 2)[:, k]).max() > 1e-12:
                         res.fail(f"sim=HyperElastic component={pre}{axn}", f"Result('{pre}{axn}') is not component {k} of {pre}", dict(sim="HyperElastic"))
     except Exception as ex:  # noqa: BLE001
-        res.notes.append(f"HyperElastic names skipped: {type(ex).__name__}: {ex}")
+        res.fail("HyperElastic names scenario raises", f"{type(ex).__name__}: {str(ex)[:150]}", dict(sim="HyperElastic"))
 
     # ---------------- PhaseField, InElastic (2D / 3D): names, components vs vector / tensor results, energy ----------------
     def tensor_components(simu, tag, dim, ident):
@@ -409,7 +412,7 @@ def main():
                     Frc = np.asarray(bs._Calc_InternalForces_e_pg(bs._Calc_Epsilon_e_pg(ub))).mean(1)
                     Sig = np.asarray(bs._Calc_Sigma_e_pg(bs._Calc_Epsilon_e_pg(ub))).mean(1)
                 except Exception as ex:  # noqa: BLE001
-                    res.notes.append(f"Beam {bdim}D vector results not available: {type(ex).__name__}")
+                    res.fail(f"Beam {bdim}D vector results raise", f"{type(ex).__name__}: {str(ex)[:120]}", dict(sim="Beam", dim=bdim))
                     continue
                 layouts = {1: (["ux'"], ["N"], ["Sxx"]), 2: (["ux'", "rz'"], ["N", "Mz"], ["Sxx", "Syy", "Sxy"]),
                            3: (["ux'", "rx'", "ry'", "rz'"], ["N", "Mx", "My", "Mz"], ["Sxx", "Syy", "Szz", "Syz", "Sxz", "Sxy"])}[bdim]
